@@ -67,6 +67,10 @@ def encode_ers(step, options):
     containers = [c["name"] for c in ((rs.get("spec") or {}).get("template") or {}).get("spec", {}).get("containers") or []]
     nodes = [P.g_node(n, eds_ns, eds_name, containers) for n in by_kind(pre, "Node")]
     pods = [P.g_pod(p) for p in by_kind(pre, "Pod")]
+    if options.get("list_order"):
+        # the controllers read their pod / node / replica-set lists reversed (see the harness): the snapshot lists what they read
+        nodes.reverse()
+        pods.reverse()
     sets = [P.g_setting(s) for s in by_kind(pre, "ExtendedDaemonsetSetting")]
     ods = None
     if e is not None:
@@ -106,8 +110,14 @@ def encode_eds(step, options):
     nodes = [P.g_node(n, op["ns"], op["name"], []) for n in by_kind(pre, "Node")]
     f = faults_from_calls(step)
     mode = {"": "VAuto", None: "VAuto", "auto": "VAuto", "manual": "VManual"}.get(options.get("default_mode"), "VOtherMode")
-    sn = gC("MkEdsSnap", gZ(step["now"]), gO(e, P.g_eds), gL([P.g_ers(r) for r in by_kind(pre, "ExtendedDaemonSetReplicaSet")]),
-            gL(nodes), gL([P.g_pod(p) for p in by_kind(pre, "Pod")]), mode, gB(bool(f.get("status"))), gB(bool(f.get("update"))),
+    rss_l = [P.g_ers(r) for r in by_kind(pre, "ExtendedDaemonSetReplicaSet")]
+    pods_l = [P.g_pod(p) for p in by_kind(pre, "Pod")]
+    if options.get("list_order"):
+        nodes.reverse()
+        rss_l.reverse()
+        pods_l.reverse()
+    sn = gC("MkEdsSnap", gZ(step["now"]), gO(e, P.g_eds), gL(rss_l),
+            gL(nodes), gL(pods_l), mode, gB(bool(f.get("status"))), gB(bool(f.get("update"))),
             gL([P.nm(n) for n in f.get("rs_delete") or []]), gB(bool(f.get("rs_create"))))
     writes = []
     for c in step["calls"]:
